@@ -349,7 +349,7 @@ func (w *Walker) Term(v reflect.Value) string {
 			var kvs []kv
 			it := v.MapRange()
 			for it.Next() {
-				kvs = append(kvs, kv{fmt.Sprintf("%v", it.Key().Interface()), it.Key(), it.Value()})
+				kvs = append(kvs, kv{keySortString(it.Key()), it.Key(), it.Value()})
 			}
 			sort.Slice(kvs, func(i, j int) bool { return kvs[i].sortKey < kvs[j].sortKey })
 			parts := make([]string, len(kvs))
@@ -431,6 +431,19 @@ func (w *Walker) Term(v reflect.Value) string {
 	default:
 		return "(HLeaf " + rty.ValTerm(v) + ")"
 	}
+}
+
+// keySortString orders map entries canonically: scalar keys by their printed value, keys that
+// hold references (interfaces, structs / arrays with pointers, pointers) by the canonical
+// string of the graph below them - never by addresses.
+func keySortString(k reflect.Value) string {
+	switch k.Kind() {
+	case reflect.Bool, reflect.Int, reflect.Int8, reflect.Int16, reflect.Int32, reflect.Int64,
+		reflect.Uint, reflect.Uint8, reflect.Uint16, reflect.Uint32, reflect.Uint64, reflect.Uintptr,
+		reflect.Float32, reflect.Float64, reflect.String:
+		return fmt.Sprintf("%v", k.Interface())
+	}
+	return Canon(k)
 }
 
 // Canon is a canonical string of the graph below v (slices split, own
